@@ -95,6 +95,7 @@ def family():
     add("union_in_array_named", ["null", {"type": "array", "items": ["null", _enum("Ev"), _rec("Rv", [f("k", "int")])]}],
         "union", "chain")
     add("union_map_rec", [{"type": "map", "values": "int"}, _rec("Rm", [f("a", "int")])], "union", "unionrec")
+    add("rec_dictnull", _rec("Dn", [f("n", {"type": "null"}), f("u", [{"type": "null"}, "int"]), f("k", "int")]), "rec")
     # defaults / omitted fields
     add("rec_defaults", _rec("Dflt", [f("a", "int", default=7), f("u", ["null", "int"], default=None),
                                       f("r", "long")]), "defaults")
